@@ -86,3 +86,25 @@ def gen_engine_config(rng: random.Random, **opts: Any) -> dict:
         "max_failures": None,
     }
     return cfg
+
+
+STALL_STAGES = ["construction", "construction", "generation", "check", "traversal"]
+
+
+def gen_stalls(run_seed: int, udesc: dict, cfg: dict, p: float = 0.35) -> list[dict]:
+    """Slow-node faults (virtual-time stalls of a worker at a pipeline stage). Drawn from their own stream so that adding
+    them leaves every other dimension of a run seed where it was."""
+    rng = random.Random(run_seed ^ 0x57A11)
+    if rng.random() >= p:
+        return []
+    out = []
+    for _ in range(rng.choice([1, 1, 2])):
+        f: dict[str, Any] = {"kind": "stall", "stage": rng.choice(STALL_STAGES), "seconds": rng.choice([0.12, 0.25, 0.6, 2.0, 15.0]),
+                             "nth": rng.choice([0, 0, 1, 3]), "times": rng.choice([1, 1, 2, 4])}
+        if rng.random() < 0.6:
+            f["op"] = rng.choice(op_keys(udesc))
+        phases = [ph for ph in cfg.get("phases", []) if ph != "probing"]
+        if phases and rng.random() < 0.4:
+            f["phase"] = rng.choice(phases)
+        out.append(f)
+    return out
